@@ -121,6 +121,24 @@ func c15Conn(c *Ctx) {
 		}
 		c.R.Cond(okArg, rule, fmt.Sprintf("%s: %s installs the attribute's value", core.FuncName(reset), in.callee), c.P.Pos(call.Pos()), "the field itself is passed", "a value other than the attribute is installed")
 	}
+	// (2b) the layers are stacked: every derived context is built on the connection's current one
+	ctxF := mustField(c, "sqlite", "S3DBConn", "ctx")
+	if ctxF != nil {
+		for _, cl := range an.Calls(reset) {
+			f := cl.Common().StaticCallee()
+			if f == nil {
+				continue
+			}
+			isDerive := (an.PkgPathOf(f) == "context" && (f.Name() == "WithDeadline" || f.Name() == "WithTimeout" || f.Name() == "WithCancel" || f.Name() == "WithValue")) ||
+				(an.PkgPathOf(f) == core.ModPath+"/writetime" && f.Name() == "NewContext")
+			if !isDerive {
+				continue
+			}
+			parent := cl.Common().Args[0]
+			c.R.Cond(an.FieldOfLoad(parent) == ctxF, rule, fmt.Sprintf("%s: %s extends the connection's context", core.FuncName(reset), f.Name()), c.P.Pos(cl.Pos()),
+				"the parent is sc.ctx, so earlier layers are kept", "a layer is built on a fresh context instead of sc.ctx: the layer installed before it (e.g. the write time when a deadline is set) is lost")
+		}
+	}
 	// (3) column k of the declared schema <-> field read by Column case k <-> field fed from values[k] in Update
 	var declared []string
 	for _, call := range an.Calls(conn) {
